@@ -5,11 +5,12 @@ CONSTANTS
   OtherMagic = 8
   Half = 2
   Max = 4
+  SizeAlts = {0, 1, 2, 3, 4, 5}
   ItemSizes = {1, 2, 4}
   MaxItems = 3
   MaxOpens = 3
   MaxDamage = 1
-  MaxOps = 14
+  MaxOps = 11
 VIEW View
 INVARIANTS PrefixOfSaved NoDamagedItem ExactReload WriterPosition CommittedInFile NoEmptyChunk
 CHECK_DEADLOCK FALSE
